@@ -265,8 +265,9 @@ def report(pid, tier, seed, H, recs, wall):
         "wall_s": round(wall, 2),
         "violations": len(violations),
     }
-    os.makedirs(os.path.join(ROOT, "evidence"), exist_ok=True)
-    json.dump(ev, open(os.path.join(ROOT, "evidence", "%s.json" % pid), "w"), indent=1)
+    evdir = os.environ.get("SYMX_EVIDENCE_DIR") or os.path.join(ROOT, "evidence")   # tools/try_patch.sh redirects it: evidence/ only ever describes the unchanged tree
+    os.makedirs(evdir, exist_ok=True)
+    json.dump(ev, open(os.path.join(evdir, "%s.json" % pid), "w"), indent=1)
     print("%s %s: %d obligations, %d discharged, %d inconclusive, %d known, %d violations, %d harness errors; %d queries, solver %.1fs, wall %.1fs"
           % (pid, tier, n_goals, n_hold, n_unknown, len(knowns), len(violations), len(herrs), queries, solver_s, wall))
     if violations:
